@@ -9,6 +9,7 @@
 import Stfs.Proofs.Replay
 import Stfs.Proofs.PosInv
 import Stfs.Model.Trig
+import Stfs.Gen.Fingerprints
 namespace Stfs.C07
 open Stfs Gen Idx
 
@@ -86,5 +87,15 @@ theorem F17_witness :
 theorem F17_trigger_fires :
     (Trig.evalPost {} (({} : Sys).runAll {} histF17)).contains "tapeHasMoveRecord" = true := by
   decide
+
+-- MIRRORS-BEGIN (maintained by bin/update-mirrors)
+/-- The parts of the model this file's theorems are about were written by hand against these
+    versions of the functions they mirror (fingerprint of each function's comment-free source,
+    regenerated on every run).  When one of them changes, this obligation fails: the change has
+    to be confirmed harmless by the correspondence, or shows up as its failing input. -/
+theorem model_mirrors_source :
+    [(n!"recovery.indexHeader"), (n!"persisters.MetadataPersister.UpsertHeader"), (n!"persisters.MetadataPersister.MoveHeader")].map Gen.fingerprintOf =
+    [some 1203388063636210460, some 1475075715614363495, some 431296354897121277] := by decide
+-- MIRRORS-END
 
 end Stfs.C07
